@@ -113,6 +113,27 @@ var extTypes = []ExtType{
 	{"Theta", []string{"Delta"}, nil},                           // three levels below Alpha
 	{"Iota", []string{"as:Object"}, []string{"as:Activity"}},    // disjoint with a type of the referenced vocabulary
 	{"Kappa", []string{"Alpha"}, []string{"Gamma", "as:Place"}}, // disjoint with an own type and a foreign one
+	// two parents of which only ONE branch has an ancestor that withholds a property ('object' is
+	// withheld from as:IntransitiveActivity, the parent of as:Travel; as:Offer has it)
+	{"Lambda", []string{"as:Travel", "as:Offer"}, nil},
+	{"Mu", []string{"Lambda"}, nil},
+	// two own-vocabulary paths to Alpha, one of them through Beta (from which properties are withheld)
+	{"Nu", []string{"Alpha", "Delta"}, nil},
+}
+
+// NameClashVocab: a type that shares its NAME with a type of the referenced vocabulary (as the
+// repository's own example_custom_spec.jsonld does with Update) and has descendants of its own. The
+// generated hierarchy predicates identify types by name, so they cannot tell the two Updates apart;
+// that is a recorded finding, judged by the exact SET of predicate cells that are wrong (a change
+// that makes other cells wrong yields another key). Only the C13 driver is run on it: at the JSON
+// level a bare type name is ambiguous by construction.
+func NameClashVocab() ExtVocab {
+	return ExtVocab{Label: "name-clash", Types: []ExtType{
+		{"Update", []string{"as:Activity"}, nil},
+		{"Patch", []string{"Update"}, nil},
+		{"Hotfix", []string{"Patch"}, nil},
+		{"Sigma", []string{"as:Object"}, []string{"Update"}},
+	}, Props: []ExtProp{{Name: "vnc1", Domain: []string{"Update"}, Range: []string{"xsd:string"}, Functional: true}}}
 }
 
 var extDomains = [][]string{{"as:Object"}, {"Alpha"}, {"as:Link", "Alpha"}, {"Alpha", "as:Note"}, {"Gamma", "Zeta"}}
